@@ -109,9 +109,7 @@ def _hypernym_paths(
     if include_self:
         paths = [[synset] + path for path in paths] or [[synset]]
     if simulate_root and synset.id != _FAKE_ROOT:
-        root = _core.Synset.empty(
-            id=_FAKE_ROOT, _lexid=synset._lexid, _wordnet=synset._wordnet
-        )
+        root = _core.Synset.empty(id=_FAKE_ROOT, _wordnet=synset._wordnet)
         paths = [path + [root] for path in paths] or [[root]]
     return paths
 
